@@ -17,6 +17,16 @@ pub use explain::Explain;
 pub use optimizer::{Config, Optimizer};
 pub use rules::{ExprAnalysis, Statistics, TypeError, TypeSchemaAnalysis};
 
+/// Verification hook: the rule lists and analyses, so that a single rule can be applied.
+#[cfg(risinglight_verif)]
+pub mod verif {
+    pub use super::cost::CostFn;
+    pub use super::rules::{agg, expr, order, plan, range, rows, schema, type_};
+    pub type EGraph = super::EGraph;
+    pub type Pattern = super::Pattern;
+    pub type Rewrite = super::Rewrite;
+}
+
 // Alias types for our language.
 type EGraph = egg::EGraph<Expr, ExprAnalysis>;
 type Rewrite = egg::Rewrite<Expr, ExprAnalysis>;
